@@ -193,6 +193,8 @@ func (e *SpecEnv) ident(name string) Value {
 		return BoolV{TFalse}
 	case "W":
 		return IntV{Const(W64)}
+	case "nil":
+		return NilV{}
 	}
 	if v, ok := e.lookup(name); ok {
 		return v
@@ -222,6 +224,14 @@ func (e *SpecEnv) binary(n *ast.BinaryExpr) Value {
 		return BoolV{Or(e.Bool(n.X), e.Bool(n.Y))}
 	}
 	lv, rv := e.Eval(n.X), e.Eval(n.Y)
+	if n.Op == token.EQL || n.Op == token.NEQ {
+		if t := nilEq(lv, rv); t != nil {
+			if n.Op == token.NEQ {
+				t = Not(t)
+			}
+			return BoolV{t}
+		}
+	}
 	if lb, ok := lv.(BoolV); ok {
 		rb := asBool(rv)
 		switch n.Op {
@@ -569,6 +579,17 @@ func (e *SpecEnv) pureCall(pkgPath, name string, args []ast.Expr) Value {
 	if sf, ok := e.c.prog.SpecFuncs[pkgPath+"."+name]; ok {
 		if len(args) != len(sf.Params) {
 			panic(verr("spec: %s expects %d arguments", name, len(sf.Params)))
+		}
+		if sf.Body == nil {
+			// ghost (uninterpreted) function
+			ts := make([]*Term, len(args))
+			for i, a := range args {
+				ts[i] = e.Int(a)
+			}
+			if sf.Bool {
+				return BoolV{App("ghost."+name, SBool, ts...)}
+			}
+			return IntV{App("ghost."+name, SInt, ts...)}
 		}
 		ne := e.sub()
 		ne.lets = nil
